@@ -258,7 +258,7 @@ pub fn check_range(case: &RangeCase, info: &mut CaseInfo) -> Result<(), Fail> {
     Ok(())
 }
 
-fn sweep(rep: &mut Report) {
+fn sweep(ctx: &Ctx, rep: &mut Report) {
     // exhaustive: last<=6, every start<=last, every subset of seqs, 3 limits, 2 size shapes
     let mut n = 0u64;
     for last in 0u64..=6 {
@@ -270,15 +270,7 @@ fn sweep(rep: &mut Report) {
                     for shape in 0..2 {
                         let sizes: Vec<u32> = seqs.iter().enumerate().map(|(i, _)| if shape == 0 { 100 } else { (i as u32 % 3) * 150 }).collect();
                         let case = ChunkCase { start, last, seqs: seqs.clone(), sizes, limit, relimits: vec![] };
-                        let mut info = CaseInfo::default();
-                        match check_chunks(&case, &mut info) {
-                            Ok(()) => rep.account("sweep-chunks", &case, &info),
-                            Err(f) => {
-                                if rep.violations.len() < 3 {
-                                    rep.violation("sweep-chunks", &case, &f, false);
-                                }
-                            }
-                        }
+                        crate::common::eval_enumerated(ctx, rep, "sweep-chunks", &case, check_chunks);
                         n += 1;
                     }
                 }
@@ -292,15 +284,7 @@ fn sweep(rep: &mut Report) {
             for chunk in 1usize..=12 {
                 for versions in [false, true] {
                     let case = RangeCase { start, len, chunk, versions };
-                    let mut info = CaseInfo::default();
-                    match check_range(&case, &mut info) {
-                        Ok(()) => rep.account("sweep-range", &case, &info),
-                        Err(f) => {
-                            if rep.violations.len() < 3 {
-                                rep.violation("sweep-range", &case, &f, false);
-                            }
-                        }
-                    }
+                    crate::common::eval_enumerated(ctx, rep, "sweep-range", &case, check_range);
                     m += 1;
                 }
             }
@@ -311,7 +295,7 @@ fn sweep(rep: &mut Report) {
 
 pub fn run(ctx: &Ctx, rep: &mut Report) {
     if ctx.worker == 0 && ctx.wants("sweep") {
-        sweep(rep);
+        sweep(ctx, rep);
     }
     let (n_chunks, n_range) = match ctx.tier {
         Tier::Quick => (100_000, 30_000),
